@@ -65,6 +65,20 @@ func init() {
 		}
 		return c.ret(ex.eqVal(StringV{B: s.B[:len(p.B)]}, p))
 	}
+	Stubs["bytes.HasPrefix"] = func(ex *Exec, c *CallCtx) []*callResult {
+		s, p := ex.sliceBytes(c.St, c.Args[0].(SliceV)), ex.sliceBytes(c.St, c.Args[1].(SliceV))
+		if len(p) > len(s) {
+			return c.ret(term.False())
+		}
+		return c.ret(ex.eqVal(StringV{B: s[:len(p)]}, StringV{B: p}))
+	}
+	Stubs["bytes.HasSuffix"] = func(ex *Exec, c *CallCtx) []*callResult {
+		s, p := ex.sliceBytes(c.St, c.Args[0].(SliceV)), ex.sliceBytes(c.St, c.Args[1].(SliceV))
+		if len(p) > len(s) {
+			return c.ret(term.False())
+		}
+		return c.ret(ex.eqVal(StringV{B: s[len(s)-len(p):]}, StringV{B: p}))
+	}
 	Stubs["strings.HasSuffix"] = func(ex *Exec, c *CallCtx) []*callResult {
 		s, p := c.Args[0].(StringV), c.Args[1].(StringV)
 		if len(p.B) > len(s.B) {
